@@ -117,3 +117,15 @@ package scheduler
 //@ callreq s.setResolvedEpoch: a1 == slot.Epoch() && (len(vals) == 0 || (ncalls(s.resolveAttDuties) == 1 && ncalls(s.resolveProDuties) == 1 && ncalls(s.resolveSyncCommDuties) == 1))
 //@ ensures result == nil ==> ncalls(s.setResolvedEpoch) == 1
 //@ ensures result != nil ==> ncalls(s.setResolvedEpoch) == 0
+
+// Slot ticker: what is emitted is always the ticker's current slot, and after an emission the ticker continues
+// from the successor of the slot it just emitted (never from an older one), so a slot is not emitted twice by
+// sequencing. That the slot re-read from the clock after a missed tick lies after every slot already emitted
+// rests on the clock being monotonic and is not under contract here.
+//@ func newSlotTicker$2
+//@ props C15
+//@ ghost lastSent core.Slot
+//@ ghostcall send resp: lastSent = a1
+//@ callreq send resp: a1 == slot
+//@ loop 1 invariant ncalls("send resp") == 0 || slot == lastSent.Next()
+
